@@ -355,9 +355,30 @@ def run_class_case(case):
 # ---------------------------------------------------------------------------
 def run_success_case(case):
     res = {"evals": 1, "violations": [], "events": {}, "nontrivial": []}
+    text_override = None
     ff = case["ff"]
     opts = [f"--ff={ff}"] + list(case.get("opts", []))
-    if case["kind"] == "host":
+    if case["kind"] == "layout":
+        atoms, _info, _n = corpus.build_layout(case["layout"], case["x"])
+        text_override = corpus.layout_text(case["layout"], atoms)
+        label = f"{ff}/layout:{case['layout']}:{case['x']}"
+    elif case["kind"] == "mixed":
+        atoms, _info = corpus.build_mixed(case["name"])
+        label = f"{ff}/mixed:{case['name']}"
+    elif case["kind"] == "cyclic":
+        from . import c02
+
+        atoms, _info, _d0 = c02.cyclic_atoms(1.33)
+        lin = build.build_peptide(["SER", "ILE", "SER"], chain="L", start=101,
+                                  origin=(40.0, 0.0, 0.0))
+        if case["other"] == "after":
+            atoms = atoms + lin
+        elif case["other"] == "before":
+            for a in atoms:
+                a["chain"] = "Z"
+            atoms = lin + atoms
+        label = f"{ff}/cyclic+linear-{case['other']}"
+    elif case["kind"] == "host":
         # one water next to the peptide, one far away from everything
         atoms, _info = corpus.build_host({"x": case["x"], "pos": case["pos"],
                                           "waters": [[9.0, 9.0, 9.0],
@@ -382,7 +403,8 @@ def run_success_case(case):
                                      xyz=np.array([30.0, 0.0, 0.0]),
                                      record="HETATM", res_idx=-1))
         label += f"+tail:{case['tail']}"
-    r = pipeline.run(build.pdb_text(atoms), opts, want_text=False)
+    r = pipeline.run(text_override or build.pdb_text(atoms), opts,
+                     want_text=False)
     state = out_state(r.out_path, False)
     viol = []
     if not r.ok:
@@ -439,6 +461,19 @@ def enumerate_cases(tier, seed):
             for tail in ("water", "ion", "water+ion"):
                 cases.append({"mode": "success", "kind": "strand", "ff": ff,
                               "seq": seq, "naming": "legacy", "tail": tail})
+    # chain layouts, ring + linear chain, multi-instance structures
+    for ff in ("AMBER", "PARSE"):
+        for layout in corpus.LAYOUTS:
+            for x in ("ALA", "SER", "LYS", "CYS"):
+                cases.append({"mode": "success", "kind": "layout", "ff": ff,
+                              "layout": layout, "x": x})
+        for other in ("none", "before", "after"):
+            cases.append({"mode": "success", "kind": "cyclic", "ff": ff,
+                          "other": other, "opts": ["--noopt"]})
+    for ff in corpus.FFS:
+        for name in ("all20x2", "ends"):
+            cases.append({"mode": "success", "kind": "mixed", "ff": ff,
+                          "name": name})
     for ff in corpus.FFS:
         for x in ("ALA", "LYS", "ASP", "PRO"):
             for tail in ("water", "ion", "water+ion"):
